@@ -1422,15 +1422,24 @@ static int ex_exec(char *ln)
 }
 
 /* execute a single ex command */
+#ifdef NEATVI_VERIF
+static int ex_verif_lvl;	/* nesting of ex_command(); 0 for a line typed at the prompt */
+#endif
+
 int ex_command(char *ln)
 {
+#ifdef NEATVI_VERIF
+	int verif_lvl = ex_verif_lvl++;
+#endif
 	int ret = ex_exec(ln);
 	lbuf_modified(xb);
 #ifdef NEATVI_VERIF
+	ex_verif_lvl--;
 	if (verif_on()) {
 		struct sbuf *sb = verif_rec("ex");
 		verif_key(sb, "ln");
 		verif_hex(sb, ln, -1);
+		verif_int(sb, "lvl", verif_lvl);
 		verif_int(sb, "ret", ret);
 		verif_int(sb, "quit", xquit);
 		ex_verif_state(sb);
